@@ -303,6 +303,10 @@ fn parse_v_model_directive(
                             modifiers = Some(parse_modifiers(elems));
                         }
                     }
+                    if modifiers.is_none() {
+                        // no modifier list in the array: the `_mod` suffixes of the name apply
+                        modifiers = Some(splitted_attr_name.map(Atom::from).collect());
+                    }
                 }
             }
         } else {
